@@ -3,9 +3,10 @@
 MODULE = "DtailModel.Props.C07"
 GROUPS = ["C07"]
 BINS = True
-LOGGER = "none"
+LOGGER = {"c07.multi": "none", "c07.sched": "stdout"}
 JOBS = 8
 BUDGET = {"quick": 14, "thorough": 200}
+SCHED_BUDGET = {"quick": 160, "thorough": 4000}
 LEVEL_TEXT = ("Lean theorems: C07_interleave (for every number of connections and every interleaving of transport chunks each connection's "
               "printed messages are exactly those of its own byte stream, in order — nothing torn, merged or lost), C07_count_is_line_number "
               "(every delivered line, including lines flushed from the before-context ring, carries its true running number), "
@@ -16,7 +17,10 @@ TRUSTED = ["Lean 4 kernel", "axioms: propext, Quot.sound, Classical.choice (at m
            "modelled not verified: the stdout logger's mutex makes a message's print atomic (the model appends whole messages), fmt.Print, SSH transport, "
            "goroutine scheduling of readers and connections (the theorem quantifies over all chunk schedules; the run samples some)"]
 ASSUMPTIONS = ["host names and file identifiers contain no '|', newline or delimiter byte"]
-RULE = ("seeded cluster runs: 1..3 servers x 1..4 files x 1..120 lines, line lengths from short to longer than one transport read (40 000 > 32 KiB), "
+RULE = ("scripted chunk schedules (c07.sched): 1..4 real client handlers, each connection's byte stream made of REMOTE records with contents "
+        "from a few bytes to 200 KB (beyond the 32 KiB transport read and beyond 64 KiB), hidden messages, delimiter- and newline-terminated "
+        "messages, cut into transport chunks of at most 32 KiB at random places and interleaved at random; "
+        "seeded cluster runs: 1..3 servers x 1..4 files x 1..120 lines, line lengths from short to longer than one transport read (40 000 > 32 KiB), "
         "MaxLineLength below and above the line length (split lines renumber); non-trivial = multi-server / multi-file / split / long tag")
 
 
@@ -33,3 +37,86 @@ def gen(rng, budget, tier):
             nl = min(nl, 12)
         mll = rng.choice([1048576, 1048576, 64, 1024])
         yield f"c07.multi {ns} {nf} {nl} {ll} {mll}"
+
+
+def _parts(tokens):
+    """tokens: list of ('lit', bytes) / ('run', n, byte) -> chunk text"""
+    out = []
+    for t in tokens:
+        if t[0] == "lit":
+            if t[1]:
+                out.append(t[1].hex())
+        elif t[1] > 0:
+            out.append(f"R{t[1]}x{t[2]:02x}")
+    return ".".join(out)
+
+
+def _stream(rng, conn, tier):
+    """a connection's byte stream as tokens"""
+    toks = []
+    for k in range(1, rng.choice([1, 2, 3, 6]) + 1):
+        r = rng.random()
+        if r < 0.1:
+            toks.append(("lit", b".hidden message %d\xac" % k))
+            continue
+        size = rng.choice([0, 5, 60, 900, 30000, 33000, 65535, 65536, 70000, 100000, 200000] if r < 0.6 else [0, 5, 60, 900])
+        toks.append(("lit", b"REMOTE|srv%d|100|%d|f%d|src=%d n=%d " % (conn, k, conn, conn, k)))
+        toks.append(("run", size, 0x61 + conn))
+        toks.append(("lit", rng.choice([b"\n\xac", b"\n\xac", b"\xac", b"\n"])))
+    return toks
+
+
+def _cut(rng, toks, maxlen=32768):
+    """cut a token stream into chunks of 1..maxlen bytes"""
+    chunks, cur, room = [], [], rng.choice([maxlen, maxlen, rng.randrange(1, maxlen)])
+    def flush():
+        nonlocal cur, room
+        if cur:
+            chunks.append(cur)
+        cur, room = [], rng.choice([maxlen, maxlen, maxlen, rng.randrange(1, maxlen), rng.randrange(1, 64)])
+    for t in toks:
+        if t[0] == "lit":
+            data = t[1]
+            while data:
+                take = min(room, len(data))
+                cur.append(("lit", data[:take]))
+                data, room = data[take:], room - take
+                if room == 0:
+                    flush()
+        else:
+            n = t[1]
+            while n:
+                take = min(room, n)
+                cur.append(("run", take, t[2]))
+                n, room = n - take, room - take
+                if room == 0:
+                    flush()
+    flush()
+    return chunks
+
+
+def gen_sched(rng, budget, tier):
+    # a 100 000-byte message of connection 0 in 32 KiB reads, another connection's line in between
+    yield "c07.sched 2 0:" + _parts([("lit", b"REMOTE|srv0|100|1|f0|"), ("run", 32747, 0x61)]) + ",0:R32768x61,1:" + \
+        _parts([("lit", b"REMOTE|srv1|100|1|f1|short line of the other source\n\xac")]) + ",0:R32768x61,0:" + \
+        _parts([("run", 1696, 0x61), ("lit", b"\n\xac")])
+    for _ in range(budget):
+        n = rng.choice([1, 2, 2, 3, 4])
+        queues = [[(i, c) for c in _cut(rng, _stream(rng, i, tier))] for i in range(n)]
+        sched = []
+        while any(queues):
+            q = rng.choice([q for q in queues if q])
+            sched.append(q.pop(0))
+        yield f"c07.sched {n} " + ",".join(f"{i}:{_parts(c)}" for i, c in sched)
+
+
+_gen_multi = gen
+
+
+def gen(rng, budget, tier):
+    yield from gen_sched(rng, SCHED_BUDGET[tier], tier)
+    yield from _gen_multi(rng, budget, tier)
+
+
+def batches(cases):
+    return [[c for c in cases if c.startswith("c07.sched")], [c for c in cases if not c.startswith("c07.sched")]]
